@@ -119,3 +119,35 @@ Qed.
 (* alpha outside [0,1] (other than the sentinel) does overshoot: the hypothesis alpha_ok is needed *)
 Lemma overshoot_witness : 1 < nth 0 (qs (run_learn (3 # 2) (init_agent 1 0) [(0%nat, 1 # 1)])) 0.
 Proof. vm_compute. reflexivity. Qed.
+
+(* ------------------------------------------------------------------ every update moves the estimate toward the reward *)
+(* the error to the reward just received is multiplied by (1 - step) *)
+Lemma learn_error alpha s a r : (a < length (qs s))%nat -> (a < length (cnts s))%nat ->
+  nth a (qs (learn alpha s a r)) 0 - r == (1 - step_of alpha (nth a (cnts s) 0%nat)) * (nth a (qs s) 0 - r).
+Proof. intros H1 H2. destruct (learn_rule alpha s a r H1 H2) as [_ E]. rewrite E. ring. Qed.
+
+(* ... hence, for an admissible rate, it never grows and never changes sign (no overshoot) *)
+Lemma learn_no_overshoot alpha s a r : alpha_ok alpha -> (a < length (qs s))%nat -> (a < length (cnts s))%nat ->
+  Qabs (nth a (qs (learn alpha s a r)) 0 - r) <= Qabs (nth a (qs s) 0 - r) /\
+  0 <= (nth a (qs (learn alpha s a r)) 0 - r) * (nth a (qs s) 0 - r).
+Proof.
+  intros A H1 H2. rewrite (learn_error alpha s a r H1 H2).
+  destruct (step_of_unit alpha (nth a (cnts s) 0%nat) A) as [S0 S1].
+  set (st := step_of alpha (nth a (cnts s) 0%nat)) in *. set (e := nth a (qs s) 0 - r).
+  assert (K0 : 0 <= 1 - st) by lra. assert (K1 : 1 - st <= 1) by lra.
+  split.
+  - rewrite Qabs_Qmult. rewrite (Qabs_pos (1 - st) K0).
+    assert (P : 0 <= Qabs e) by apply Qabs_nonneg.
+    assert (M : (1 - st) * Qabs e <= 1 * Qabs e) by (apply Qmult_le_compat_r; assumption).
+    lra.
+  - assert (E : (1 - st) * e * e == (1 - st) * (e * e)) by ring. rewrite E.
+    apply Qmult_le_0_compat; [exact K0|].
+    destruct (Qlt_le_dec e 0) as [N | P].
+    + assert (E2 : e * e == (- e) * (- e)) by ring. rewrite E2. apply Qmult_le_0_compat; lra.
+    + apply Qmult_le_0_compat; assumption.
+Qed.
+
+(* with the rate 1 (and with the first sample-average update) the estimate becomes the reward itself *)
+Lemma learn_full_step alpha s a r : (a < length (qs s))%nat -> (a < length (cnts s))%nat ->
+  step_of alpha (nth a (cnts s) 0%nat) == 1 -> nth a (qs (learn alpha s a r)) 0 == r.
+Proof. intros H1 H2 S. pose proof (learn_error alpha s a r H1 H2) as E. rewrite S in E. lra. Qed.
